@@ -274,6 +274,62 @@ Definition delete_run (v : variant) (cf : config) (rq : request) (ds : dataset) 
       end
   end.
 
+(* ---- the affected-file search as DuckDB really answers it ---------------------------------------------
+   The search is ONE query over all files, read_parquet([...], filename=true, union_by_name=true)
+   WHERE <p>.  The code relies on that read judging every row as the single-file read of the rewrite
+   does.  That is external behaviour (DuckDB's multi-file reader), so it is a parameter here:
+   [sh fid r] = "the union read's WHERE is TRUE on row r of file fid".  [ideal_search p] is the
+   behaviour the code assumes; [delete_run] above is [delete_run_s] with the ideal search
+   (Proofs.delete_run_s_ideal).  The correspondence runs [delete_run_s] with the search verdicts
+   observed from DuckDB on the very same files. *)
+Definition search := N -> row -> bool.
+Definition ideal_search (p : pred) : search := fun _ r => holds r p.
+Definition match_count_s (sh : search) (f : file) : Z := countb (sh (fst f)) (snd f).
+Definition is_affected_s (sh : search) (f : file) : bool := 0 <? match_count_s sh f.
+Definition search_faithful (sh : search) (p : pred) (ds : dataset) : Prop :=
+  forall f r, In f ds -> In r (snd f) -> sh (fst f) r = holds r p.
+
+(* the rewrite loop over the files the search reported *)
+Fixpoint rewrite_all_g (v : variant) (aff : file -> bool) (p : pred) (ds : dataset) : Z * Z * dataset :=
+  match ds with
+  | [] => (0, 0, [])
+  | f :: r =>
+      let '(d, k, r') := rewrite_all_g v aff p r in
+      if aff f then
+        if unbound p (snd f) then (d, k + 1, f :: r')
+        else
+        match rewrite_file v p f with
+        | (df, None) => (df + d, k, r')
+        | (df, Some f') => (df + d, k, f' :: r')
+        end
+      else (d, k, f :: r')
+  end.
+
+Definition delete_run_s (v : variant) (sh : search) (cf : config) (rq : request) (ds : dataset) : response * dataset :=
+  match rq_class rq with
+  | WRejected => (resp 400 false 0 0 0, ds)
+  | _ =>
+    if rq_full rq && negb (rq_confirm rq) then (resp 400 false 0 0 0, ds)
+    else if negb (rq_dry rq) && negb (rq_confirm rq) then (resp 400 false 0 0 0, ds)
+    else
+      let p := rq_pred rq in
+      let aff := match rq_class rq with WQueryError => [] | _ => filter (is_affected_s sh) ds end in
+      match aff with
+      | [] => (resp 200 true 0 0 0, ds)
+      | _ =>
+        let total := sumz (map (match_count_s sh) aff) in
+        let n := Z.of_nat (length aff) in
+        if cf_max_rows cf <? total then (resp 400 false 0 0 0, ds)
+        else if (cf_threshold cf <? total) && negb (rq_confirm rq) then (resp 400 false 0 0 0, ds)
+        else if rq_dry rq then (resp 200 true total n 0, ds)
+        else let '(d, k, ds') := rewrite_all_g v (is_affected_s sh) p ds in
+             if 0 <? k
+             then ({| rs_status := 207; rs_success := false; rs_deleted := d; rs_affected := n;
+                      rs_rewritten := n - k; rs_failed := k |}, ds')
+             else (resp 200 true d n n, ds')
+      end
+  end.
+
 (* ---- what the property demands ------------------------------------------------------------------ *)
 Definition rows_of (ds : dataset) : list row := flat_map snd ds.
 Definition not_true (p : pred) (r : row) : bool := negb (holds r p).
@@ -315,7 +371,8 @@ Record ccase := {
   c_cfg : config;
   c_req : request;                      (* rq_dry is ignored: both runs are made *)
   c_ds : dataset;
-  c_duck : list (list tri);             (* DuckDB's SELECT (<p>) per file, per row (WValid only) *)
+  c_duck : list (list tri);             (* DuckDB's SELECT (<p>) per file read alone, per row (WValid only) *)
+  c_search : list (list bool);          (* DuckDB's union read ... WHERE <p>: is the row returned? per file, per row *)
   c_dry_resp : response;
   c_dry_ds : dataset;                   (* files re-read after the dry run *)
   c_resp : response;
@@ -333,9 +390,29 @@ Definition eval_agrees (c : ccase) : bool :=
   | _ => true
   end.
 
+(* the observed search verdicts as a [search] *)
+Fixpoint zip_lookup (rows : list row) (bs : list bool) (r : row) : bool :=
+  match rows, bs with
+  | x :: rs, b :: bs' => if row_eqb x r then b else zip_lookup rs bs' r
+  | _, _ => false
+  end.
+Fixpoint sh_of (ds : dataset) (srch : list (list bool)) (fid : N) (r : row) : bool :=
+  match ds, srch with
+  | f :: ds', bs :: s' => if N.eqb (fst f) fid then zip_lookup (snd f) bs r else sh_of ds' s' fid r
+  | _, _ => false
+  end.
+(* does the union read judge the rows as the single-file reads do?  (the hypothesis [search_faithful]
+   of the theorems, evaluated on DuckDB's own answers) *)
+Definition search_is_faithful (c : ccase) : bool :=
+  match rq_class (c_req c) with
+  | WValid => list_eqb (list_eqb Bool.eqb) (c_search c) (map (map (fun t => tri_eqb t T)) (c_duck c))
+  | _ => true
+  end.
+
 Definition case_agrees (c : ccase) : bool :=
-  let '(rd, dsd) := delete_run (c_variant c) (c_cfg c) (with_dry (c_req c) true) (c_ds c) in
-  let '(rr, dsr) := delete_run (c_variant c) (c_cfg c) (with_dry (c_req c) false) dsd in
+  let sh := sh_of (c_ds c) (c_search c) in
+  let '(rd, dsd) := delete_run_s (c_variant c) sh (c_cfg c) (with_dry (c_req c) true) (c_ds c) in
+  let '(rr, dsr) := delete_run_s (c_variant c) sh (c_cfg c) (with_dry (c_req c) false) dsd in
   eval_agrees c &&
   response_eqb rd (c_dry_resp c) && dataset_eqb dsd (c_dry_ds c) &&
   response_eqb rr (c_resp c) && dataset_eqb dsr (c_after c) && c_sibling_ok c.
